@@ -1,6 +1,10 @@
 """C02 — serialization emits valid JSON denoting the tree; parse(serialize(T)) = T.
 
-Script line:  ser <tree in jvtext> <flags>,<flags>,...
+Script line:  ser <tree in jvtext> <flags>,<flags>,... [<op>;<op>;...]
+The optional history (see harness/drv_ser.c: C K R<flags> D I U B T A X) is applied to the tree through
+the public API before it is serialized ("every tree built through the API": deep copies, in-place
+setters, parser-built trees, replaced and deleted children); with a history the observation starts with
+"R <text hex>" per R operation, "tree <typed dump>" and, after K, "aside <typed dump>".
 Observation per flag value (" | " between them):
     <text hex> <reported length> <equal(orig,reparsed)> <typed dump of reparsed> <re-serialization hex>
   | <text hex> <reported length> PARSEFAIL <err>
@@ -30,7 +34,9 @@ TECHNIQUE = ("Coq model of the serializer (SerModel.v) proved against an indepen
 RULE = ("seeded trees (strings with control bytes, NUL, bytes >= 0x80, '/', quotes; int64/uint64 edges; doubles from lattices: powers of "
         "two and ten +- ulp, subnormals, 17-significant-digit cases, exponents ending in 0, integral doubles, random bit patterns; retained-text "
         "doubles; nesting up to 8; empty containers) x flag words (quick: 0 plus a rotating covering subset of the 64; thorough: all 64); "
-        "non-trivial = the text contains an escape, a double, or a container and was accepted by the RFC reader; distinct by (tree, flags)")
+        "plus histories: trees reached through deep copies, re-parses, in-place setters (double/int64/uint64/boolean/string), child replacement "
+        "and deletion, aimed at doubles that carry retained text and at every node type; "
+        "non-trivial = the text contains an escape, a double, or a container and was accepted by the RFC reader; distinct by (tree, flags, history)")
 TRUSTED = ["Coq 8.16.1 kernel (coqc; vm_compute for the witnesses), no axioms",
            "extraction (ExtrOcamlBasic only) + ocaml/drv_ser.ml glue, whose %.17g oracle is OCaml Printf (libc) and whose strtod oracle is float_of_string",
            "harness/drv_ser.c, jvtext.h, xalloc.c; gcc -fsanitize=address,undefined",
@@ -465,6 +471,179 @@ def nest(rng, depth):
     return v
 
 
+# ---------------------------------------------------------------- histories (independent of the Coq model)
+def parse_path(t):
+    """'@' or 'i.j.k' at the start of t -> (path, rest)"""
+    if t.startswith("@"):
+        return [], t[1:]
+    j = 0
+    while j < len(t) and (t[j].isdigit() or t[j] == "."):
+        j += 1
+    return [int(x) for x in t[:j].split(".")], t[j:]
+
+
+def children(t):
+    if isinstance(t, list):
+        return t
+    if isinstance(t, tuple) and t[0] == "o":
+        return [v for _, v in t[1]]
+    return None
+
+
+def with_child(t, i, f):
+    """t with child i replaced by f(child) (f returns DELETE to remove it); None when there is no such child"""
+    ch = children(t)
+    if ch is None or not 0 <= i < len(ch):
+        return None
+    new = f(ch[i])
+    if isinstance(t, list):
+        return t[:i] + ([] if new is DELETE else [new]) + t[i + 1:]
+    ms = t[1]
+    return ("o", ms[:i] + ([] if new is DELETE else [(ms[i][0], new)]) + ms[i + 1:])
+
+
+DELETE = object()
+
+
+def upd(t, path, f):
+    """apply f at the node addressed by path; a path that leaves the tree addresses nothing"""
+    if not path:
+        return f(t)
+    r = with_child(t, path[0], lambda c: upd(c, path[1:], f))
+    return t if r is None else r
+
+
+def is_bool(t):
+    return t is True or t is False
+
+
+def hist_step(t, aside, op, rtext):
+    """the tree (and the tree kept aside) after one API call; rtext: the text json-c printed for an R op.
+    Returns (tree, aside, message|None)"""
+    k, body = op[0], op[1:]
+    if k == "C":
+        return t, aside, None
+    if k == "K":
+        return t, ("some", t), None
+    if k == "R":
+        f = int(body)
+        txt = strip_color(rtext) if f & COLOR else rtext
+        if txt is None:
+            return t, aside, "R: ESC that is not a colour sequence"
+        try:
+            val, toks = rfc_parse(txt)
+        except Reject as e:
+            return t, aside, "R flags %d: text is not RFC 8259: %s" % (f, e)
+        m = denote_mismatch(val, t)
+        if m:
+            return t, aside, "R flags %d: %s" % (f, m)
+        return expected_reparse(t, iter([x for kk, x in toks if kk == "n"])), aside, None
+    path, rest = parse_path(body)
+    if k in "DIUBT":
+        arg = rest[1:]
+        if k == "D":
+            return upd(t, path, lambda n: ("d", int(arg, 16), None) if isinstance(n, tuple) and n[0] == "d" else n), aside, None
+        if k == "I":
+            return upd(t, path, lambda n: ("i", int(arg)) if isinstance(n, tuple) and n[0] in "iu" else n), aside, None
+        if k == "U":
+            return upd(t, path, lambda n: ("u", int(arg)) if isinstance(n, tuple) and n[0] in "iu" else n), aside, None
+        if k == "B":
+            return upd(t, path, lambda n: (arg == "1") if is_bool(n) else n), aside, None
+        return upd(t, path, lambda n: (b"" if arg == "-" else bytes.fromhex(arg)) if isinstance(n, bytes) else n), aside, None
+    if not path:
+        return t, aside, None
+    parent, i = path[:-1], path[-1]
+    if k == "A":
+        c = jvtext.parse(rest[1:])[0]
+        return upd(t, parent, lambda n: (with_child(n, i, lambda _: c) or n) if children(n) is not None else n), aside, None
+    if k == "X":
+        def dele(n):
+            r = with_child(n, i, lambda _: DELETE)
+            return n if r is None else r
+        return upd(t, parent, dele), aside, None
+    return t, aside, "unknown op " + op
+
+
+def nodes(t, path=()):
+    yield list(path), t
+    ch = children(t)
+    if ch:
+        for i, c in enumerate(ch):
+            yield from nodes(c, path + (i,))
+
+
+def pstr(path):
+    return ".".join(str(i) for i in path) if path else "@"
+
+
+def gen_history(rng, tree, nops):
+    """a history of nops API calls aimed at the nodes the tree has at that point (R is not simulated
+    here: after an R the generator keeps aiming with the pre-R shape, which R preserves)"""
+    ops = []
+    t = tree
+    for _ in range(nops):
+        ns = list(nodes(t))
+        r = rng.random()
+        if r < 0.22:
+            ops.append(rng.choice(["C", "C", "K"]))
+            continue
+        if r < 0.30:
+            ops.append("R%d" % rng.choice([0, 0, 1, 2, 3, 4, 10, 16, 32, 63, rng.randrange(64)]))
+            continue
+        path, n = rng.choice(ns)
+        mism = rng.random() < 0.12            # a setter of another type: must leave the node alone
+        kind = ("d" if isinstance(n, tuple) and n[0] == "d" else "i" if isinstance(n, tuple) and n[0] in "iu" else
+                "b" if is_bool(n) else "s" if isinstance(n, bytes) else "c" if children(n) is not None else "n")
+        if mism or kind in "cn":
+            pick = rng.choice("diubs")
+        else:
+            pick = kind if kind != "i" else rng.choice("iu")
+        if kind == "c" and rng.random() < 0.6 and children(n):
+            i = rng.randrange(len(children(n)))
+            if rng.random() < 0.7:
+                c = fix_strings(rng, fix_doubles(rng, jvtext.gen_tree(rng, depth=rng.choice([0, 0, 1, 2]), size=3), 0.3))
+                op = "A%s:%s" % (pstr(path + [i]), jvtext.dump(c))
+            else:
+                op = "X%s" % pstr(path + [i])
+        elif pick == "d":
+            op = "D%s=%016x" % (pstr(path), rng.choice(LATTICE))
+        elif pick == "i":
+            op = "I%s=%d" % (pstr(path), rng.choice(jvtext.INT_EDGES))
+        elif pick == "u":
+            op = "U%s=%d" % (pstr(path), rng.choice(jvtext.UINT_EDGES))
+        elif pick == "b":
+            op = "B%s=%d" % (pstr(path), rng.randrange(2))
+        else:
+            op = "T%s=%s" % (pstr(path), jvtext.hx(rng.choice(STRING_EDGES)))
+        ops.append(op)
+        if op[0] != "R":
+            t, _, _ = hist_step(t, None, op, None)
+    return ops
+
+
+def retained_tree(rng):
+    """a tree rich in doubles that carry a retained text"""
+    def dbl():
+        for _ in range(20):
+            b = rng.choice(LATTICE)
+            ts = retained_texts(b)
+            if ts:
+                return ("d", b, rng.choice(ts))
+        return ("d", jvtext.dbits(1.5), b"1.50")
+    shape = rng.randrange(4)
+    if shape == 0:
+        return dbl()
+    if shape == 1:
+        return [dbl() for _ in range(rng.randint(1, 4))]
+    if shape == 2:
+        return ("o", [(b"k%d" % i, dbl()) for i in range(rng.randint(1, 3))])
+    return ("o", [(b"a", [dbl(), ("i", 7), dbl()]), (b"b", ("o", [(b"x", dbl())])), (b"c", b"s")])
+
+
+def double_paths(t):
+    return [p for p, n in nodes(t) if isinstance(n, tuple) and n[0] == "d"]
+
+
 ALL_FLAGS = list(range(64))
 
 
@@ -484,8 +663,11 @@ def flag_subset(rng, idx):
     return out
 
 
-def mk(tree, flags, kind):
-    return ("ser %s %s" % (jvtext.dump(tree), ",".join(str(f) for f in flags)), {"kind": kind, "tree": tree, "flags": flags})
+def mk(tree, flags, kind, ops=None):
+    line = "ser %s %s" % (jvtext.dump(tree), ",".join(str(f) for f in flags))
+    if ops:
+        line += " " + ";".join(ops)
+    return (line, {"kind": kind, "tree": tree, "flags": flags})
 
 
 def gen(rng, tier):
@@ -546,6 +728,30 @@ def gen(rng, tier):
         add(t, "tree")
     for i in range(60 if quick else 300):
         add(nest(rng, rng.choice([1, 2, 5, 8, 12, 20, 30])), "nesting")
+    # histories: the tree is reached through API calls before it is serialized
+    def addh(tree, ops, kind="history", flags=None):
+        fl = flags if flags is not None else ([0] + rng.sample(range(1, 64), 3) if quick else [0] + rng.sample(range(1, 64), 15))
+        out.append(mk(tree, fl, kind, ops))
+    # (a) every way a double gets a retained text x every way the node is then reached x set_double on it
+    d15 = ("d", jvtext.dbits(1.5), b"1.50")
+    parsed = ("o", [(b"a", [("d", jvtext.dbits(1.1), None), ("d", jvtext.dbits(2.5), None)]), (b"b", ("i", 7))])
+    newbits = "%016x" % jvtext.dbits(-0.375)
+    for pre in ([], ["C"], ["K"], ["C", "C"], ["K", "C"], ["R0"], ["R0", "C"], ["R1", "K"], ["C", "R2", "C"]):
+        addh(d15, pre + ["D@=" + newbits], "history-fixed", [0, 1, 2, 4, 16, 63])
+        addh(parsed, ["R0"] + pre + ["D0.1=" + newbits], "history-fixed", [0, 1, 2, 4, 16, 63])
+        addh([d15, ("i", 1)], pre + ["D0=" + newbits, "I1=-5"], "history-fixed", [0, 3, 63])
+    for i in range(150 if quick else 1500):
+        t = retained_tree(rng)
+        pre = rng.choice([["C"], ["K"], ["C"], ["K"], [], ["C", "C"], ["R%d" % rng.randrange(64), "C"], ["C", "K"]])
+        ps = double_paths(t)
+        sets = ["D%s=%016x" % (pstr(rng.choice(ps)), rng.choice(LATTICE)) for _ in range(rng.randint(1, 2))]
+        post = rng.choice([[], [], ["C"], ["K"]])
+        addh(t, pre + sets + post, "history-retained")
+    # (b) random histories over general trees
+    for i in range(350 if quick else 4000):
+        t = jvtext.gen_tree(rng, depth=rng.choice([0, 1, 2, 3]), size=rng.choice([2, 3, 5]))
+        t = fix_strings(rng, fix_doubles(rng, t, 0.35))
+        addh(t, gen_history(rng, t, rng.choice([1, 2, 3, 4, 6, 9])))
     # a few non-finite doubles: not JSON, correspondence and length/re-serialization only
     for b in (0x7ff0000000000000, 0xfff0000000000000, 0x7ff8000000000000):
         add([("d", b, None), ("i", 1)], "nonfinite", [0, 1, 2, 4, 63])
@@ -587,11 +793,48 @@ def oracle(line, meta, impl):
     if impl in ("MISSING", "BADLINE", "BADTREE"):
         return ("malformed", "driver said " + impl)
     try:
-        _, tree_s, flags_s = line.split(" ")
-        tree = meta.get("tree") if "tree" in meta else jvtext.parse(tree_s)[0]
+        fields = line.split(" ")
+        tree_s, flags_s = fields[1], fields[2]
+        ops = fields[3].split(";") if len(fields) > 3 else []
+        tree = jvtext.parse(tree_s)[0]
         flags = [int(x) for x in flags_s.split(",")]
     except Exception as e:                                  # replay files etc.
         return ("malformed", "bad script line: %r" % e)
+    if impl.endswith("LEAK") or " | LEAK " in impl:
+        return ("leak", "allocation leaked: " + impl[-40:])
+    hist_found = None
+    if ops:
+        # the history: what the API calls denote, computed here; the driver's dump must agree
+        raw = impl.split(" | ")
+        pos = 0
+        aside = None
+        for op in ops:
+            rtext = None
+            if op[0] == "R":
+                if pos >= len(raw) or not raw[pos].startswith("R "):
+                    return ("malformed", "history: R step missing: " + impl[:120])
+                rt = raw[pos].split(" ")
+                pos += 1
+                if len(rt) != 2:
+                    return ("history-reparse-fails", "history %s: json-c does not re-parse its own output: %s" % (";".join(ops), " ".join(rt[2:])))
+                rtext = b"" if rt[1] == "-" else bytes.fromhex(rt[1])
+            tree, aside, msg = hist_step(tree, aside, op, rtext)
+            if msg:
+                return ("history-text", "history %s: %s" % (";".join(ops), msg))
+        if pos >= len(raw) or not raw[pos].startswith("tree "):
+            return ("malformed", "history: tree step missing: " + impl[:120])
+        got = raw[pos][5:]
+        pos += 1
+        if got != jvtext.dump(tree):
+            hist_found = ("history-tree", "after the API calls %s the tree is %s, the calls denote %s" % (";".join(ops), got[:120], jvtext.dump(tree)[:120]))
+        if aside is not None:
+            if pos >= len(raw) or not raw[pos].startswith("aside "):
+                return ("malformed", "history: aside step missing: " + impl[:120])
+            if raw[pos][6:] != jvtext.dump(aside[1]) and hist_found is None:
+                hist_found = ("history-source-disturbed", "the tree a deep copy was taken from changed with the copy: %s, expected %s (history %s)"
+                              % (raw[pos][6:][:120], jvtext.dump(aside[1])[:120], ";".join(ops)))
+            pos += 1
+        impl = " | ".join(raw[pos:])
     steps = parse_obs(impl)
     if steps and steps[-1][0] == "leak":
         return ("leak", "allocation leaked: " + steps[-1][1])
@@ -687,6 +930,8 @@ def oracle(line, meta, impl):
                     if t[0] == "d" and t[2] is None and tok is not None and not check_fmt17_shape(tok):
                         found.append(("fmt17-shape", "double %016x printed as %r: outside the %%.17g shape the proof assumes" % (t[1], tok)))
         walk(tree)
+    if hist_found is not None:
+        return hist_found
     for c in found:
         if c[0] != NOZERO_CLASS:
             return c
@@ -698,7 +943,7 @@ def classify(line, meta, mo, co):
 
 
 def nontrivial(line, meta, impl):
-    st = parse_obs(impl)
+    st = parse_obs(" | ".join(x for x in impl.split(" | ") if not x.startswith(("R ", "tree ", "aside "))))
     if not st or st[0][0] != "ok":
         return None
     t = st[0][1]
@@ -739,16 +984,22 @@ def subtrees(tree):
 
 
 def shrink(ck, line, cls):
-    _, tree_s, flags_s = line.split(" ")
-    tree = jvtext.parse(tree_s)[0]
-    flags = [int(x) for x in flags_s.split(",")]
+    import fw
+    fields = line.split(" ")
+    tree = jvtext.parse(fields[1])[0]
+    flags = [int(x) for x in fields[2].split(",")]
+    ops = fields[3].split(";") if len(fields) > 3 else []
     budget = [70]
 
-    def fails(t, fl):
+    def mkline(t, fl, os_):
+        l = "ser %s %s" % (jvtext.dump(t), ",".join(str(f) for f in fl))
+        return l + (" " + ";".join(os_) if os_ else "")
+
+    def fails(t, fl, os_=None):
         if budget[0] <= 0:
             return False
         budget[0] -= 1
-        l = "ser %s %s" % (jvtext.dump(t), ",".join(str(f) for f in fl))
+        l = mkline(t, fl, ops if os_ is None else os_)
         m, c, _ = ck.run_pair([l], "shrink")
         v = oracle(l, {}, c.get(1, "MISSING"))
         return v is not None and v[0] == cls
@@ -762,6 +1013,10 @@ def shrink(ck, line, cls):
             if fails(tree, [f]):
                 flags = [f]
                 break
+    if ops:
+        # the operations address nodes by position: keep the tree, minimise the history
+        ops = fw.ddmin(ops, lambda sub: fails(tree, flags, sub), budget=40)
+        return mkline(tree, flags, ops)
     progress = True
     while progress and budget[0] > 0:
         progress = False
@@ -772,7 +1027,7 @@ def shrink(ck, line, cls):
                 tree = cand
                 progress = True
                 break
-    return "ser %s %s" % (jvtext.dump(tree), ",".join(str(f) for f in flags))
+    return mkline(tree, flags, ops)
 
 
 def search(rng, broken_lines):
